@@ -1,6 +1,7 @@
 SPECIFICATION FairSpec
 CONSTANTS
   RestoreOnWaitQuit <- MCRestore
+  ClearOnDisconnect <- MCClear
 INVARIANT Inv
 PROPERTY KeepsAircraft
 PROPERTY RunsUntilAsked
